@@ -49,6 +49,7 @@ func (a *ake) wipe(wipeKeys bool) {
 	a.theirPublicValue = nil
 
 	wipeBytes(a.r[:])
+	wipeBytes(a.ssid[:])
 
 	a.wipeGX()
 	a.revealKey.unlock()
